@@ -2,7 +2,7 @@
 import hashlib
 import os
 
-from harness.core import Violation, HarnessError, digest
+from harness.core import Violation, HarnessError, digest, exc_key
 
 DESCRIPTION = {
     "level": "exploration",
@@ -12,7 +12,8 @@ DESCRIPTION = {
              "Generated: Hypothesis payloads (sizes biased to 127/128 and 16-byte block edges, up to 64KiB quick/1MiB thorough), "
              "random keys, multi-way chunkings; non-trivial by the same rule, distinct by digest of (impl,key,len,offset,chunks). "
              "Oracle: out[i]==in[i]^key[(offset+i)%4] computed with big-int XOR, pointer()==bytes processed, "
-             "involution, chunked==one-shot. Mask policy: wire log of library client/server pairs through every send API (sendMessage with and without fragmentation, "
+             "involution, chunked==one-shot. Receive side through the protocol: a scripted peer sends masked frames (consecutive frames with the same key, other keys, the zero key; all length "
+             "classes; fragments; drawn read chunking) to a library server, each message must arrive as data XOR key.  Mask policy: wire log of library client/server pairs through every send API (sendMessage with and without fragmentation, "
              "frame-wise, streaming, prepared): every client frame masked, no server frame masked, and no two client frames share a key (the 32-bit key draw is replaced by a "
              "collision-free sequence inside the check, so an equal key means that no new key was drawn)."),
     "assumptions": [
@@ -44,6 +45,10 @@ def plan(tier, seed):
                      "args": {"seed": seed * 1000 + sh, "n": n, "big": big}})
         jobs.append({"func": "generated", "nvx": "0", "name": "gen_pure/%d" % sh,
                      "args": {"seed": seed * 1000 + 500 + sh, "n": max(60, n // 6), "big": big // 8}})
+    for nvx in ("1", "0"):
+        for fw in ("twisted", "asyncio"):
+            jobs.append({"func": "rx_frames", "fw": fw, "nvx": nvx, "nvxbuild": nvx == "1", "name": "rx_frames/%s/nvx%s" % (fw, nvx),
+                         "args": {"seed": seed * 1000 + 800 + (fw == "asyncio") * 10 + int(nvx), "n": 120 if tier == "quick" else 1200}})
     jobs.append({"func": "policy", "fw": "twisted", "nvx": "1", "nvxbuild": True, "name": "policy_tx",
                  "args": {"seed": seed, "n": 40 if tier == "quick" else 400}})
     return jobs
@@ -268,6 +273,56 @@ def generated(col, seed, n, big):
 
 # ---------------------------------------------------------------- mask policy on the wire
 
+def rx_frames(col, seed, n, only=None):
+    """receive side through the protocol: a scripted peer sends masked frames to a library server - consecutive frames with the SAME key, with
+    different keys, zero keys, every length class, delivered in drawn chunk sizes: each message arrives as data XOR key from offset 0 of its frame"""
+    from hypothesis import strategies as st
+    from harness.core import run_hypothesis
+    from harness import ref6455
+    from checks.c02_ws_receive import Rx
+    frame = st.fixed_dictionaries({"len": st.sampled_from([0, 1, 2, 3, 4, 5, 7, 8, 9, 15, 16, 17, 125, 126, 127, 128, 129, 200, 4096, 65536]),
+                                   "key": st.sampled_from(["same", "same", "new", "zero", "first"]), "salt": st.integers(0, 99), "frag": st.integers(1, 3)})
+    strat = st.fixed_dictionaries({"frames": st.lists(frame, min_size=2, max_size=6), "chunk": st.sampled_from([0, 1, 2, 3, 5, 7, 8, 13, 64, 1000]),
+                                   "k0": st.binary(min_size=4, max_size=4)})
+
+    def body(c):
+        case = dict(c, check="rx_frames")
+        rx = Rx(True, False, False, {"utf8validateIncoming": False})
+        keys = [c["k0"]]
+        data = b""
+        want = []
+        for i, f in enumerate(c["frames"]):
+            key = {"same": keys[-1], "first": keys[0], "zero": b"\x00" * 4, "new": bytes((b + 17 * (i + 1)) & 0xFF for b in keys[-1])}[f["key"]]
+            keys.append(key)
+            payload = pattern(f["len"], f["salt"])
+            want.append(payload)
+            nfrag = min(f["frag"], max(1, len(payload)))
+            cuts = [len(payload) * k // nfrag for k in range(1, nfrag)]
+            parts = [payload[a:b] for a, b in zip([0] + cuts, cuts + [len(payload)])]
+            for k, part in enumerate(parts):
+                data += ref6455.encode_frame(2 if k == 0 else 0, part, fin=(k == len(parts) - 1), mask=key)
+        if c["chunk"] == 0:
+            rx.feed(data)
+        else:
+            step = c["chunk"] if len(data) < 20000 else max(c["chunk"], len(data) // 300)
+            for i in range(0, len(data), step):
+                rx.feed(data[i:i + step])
+        obs = rx.finish()
+        if obs["escaped"] or obs["loop_errors"]:
+            raise Violation("C15|rx|exception-escaped|" + (exc_key(obs["escaped"][0]) if obs["escaped"] else "loop"), repr((obs["escaped"] or obs["loop_errors"])[0])[:300], case)
+        got = [e[2] for e in obs["events"] if e[0] == "msg"]
+        if got != want:
+            k = next((i for i in range(min(len(got), len(want))) if got[i] != want[i]), min(len(got), len(want)))
+            raise Violation("C15|rx|unmasked-payload-differs", "message #%d of %d: frame keys %r, chunk %r: got %d messages; first difference at #%d (dropped=%r closes=%r)" % (
+                k, len(want), [x.hex() for x in keys[1:]], c["chunk"], len(got), k, obs["dropped"], [f.payload[:2].hex() for f in obs["frames"] if f.opcode == 8]), case)
+        same = sum(1 for i in range(2, len(keys)) if keys[i] == keys[i - 1])
+        col.case(same >= 1, dig=c, cls=["rx/" + ("same-key-consecutive" if same else "distinct-keys"), "rx/chunk:%s" % c["chunk"]], sample={"lens": [f["len"] for f in c["frames"]], "keys": [f["key"] for f in c["frames"]], "chunk": c["chunk"]})
+    if only is not None:
+        body(only)
+        return
+    run_hypothesis(col, "rx_frames", strat, body, n, seed)
+
+
 def policy(col, seed, n):
     from checks import wsdrive
     wsdrive.mask_policy(col, seed, n)
@@ -279,6 +334,11 @@ def replay(col, case):
     inner = case.get("case")
     c = inner if isinstance(inner, dict) and "check" in inner else case
     kind = c["check"]
+    if kind == "rx_frames":
+        cc = {k: v for k, v in c.items() if k != "check"}
+        cc["frames"] = [dict(f) for f in cc["frames"]]
+        rx_frames(col, 0, 1, only=cc)
+        return
     if kind in ("native",) or (kind == "gen" and c["impl"].startswith("lib")):
         ffi, lib = _native()
         buf, base = _aligned(ffi, c["len"] + 64)
